@@ -273,13 +273,20 @@ def _clean_env():
             del os.environ[k]
 
 
+def _isolated(args):
+    """run one job in a freshly forked child process (pristine library state)"""
+    ctxm = multiprocessing.get_context("fork")
+    with ctxm.Pool(1, maxtasksperchild=1) as pool:
+        return pool.apply(_run_one, (args,))
+
+
 def run_case(mod, case):
     """Re-execute one replay case in this process; returns the list of violations (dicts)."""
     if "whole_job" in case:
-        return _run_one((mod.__name__, case["whole_job"]))
+        return _isolated((mod.__name__, case["whole_job"]))
     job = {"name": case.get("job", "replay"), "single": case}
     job.update(case.get("jobparams", {}))
-    return _run_one((mod.__name__, job))
+    return _isolated((mod.__name__, job))
 
 
 # --------------------------------------------------------------------------------------------
@@ -320,12 +327,14 @@ def run_property(mod, tier, nproc=None):
     jobs = mod.jobs(tier)
     nproc = nproc or int(os.environ.get("VERIF_JOBS", "0") or 0) or min(16, os.cpu_count() or 1)
     results = []
-    if nproc <= 1 or len(jobs) <= 1:
+    if nproc <= 1:
         for job in jobs:
-            results.append(_run_one((mod.__name__, job)))
+            results.append(_isolated((mod.__name__, job)))
     else:
+        # one freshly forked process per job: state the library keeps between calls (caches, class attributes)
+        # cannot leak from one job into the next, so every job - and its replay - is deterministic on its own
         ctxm = multiprocessing.get_context("fork")
-        with ctxm.Pool(min(nproc, len(jobs))) as pool:
+        with ctxm.Pool(min(nproc, len(jobs)), maxtasksperchild=1) as pool:
             for res in pool.imap_unordered(_run_one, [(mod.__name__, j) for j in jobs], chunksize=1):
                 results.append(res)
     results.sort(key=lambda r: r["job"])
@@ -376,7 +385,7 @@ def run_property(mod, tier, nproc=None):
     for v in reported[:MAX_REPORT]:
         whole = False
         for attempt in range(2):
-            rr = run_case(mod, v["case"]) if not whole else _run_one((mod.__name__, byname[v["origin"]]))
+            rr = run_case(mod, v["case"]) if not whole else _isolated((mod.__name__, byname[v["origin"]]))
             if rr.get("harness_error"):
                 sys.stdout.write("HARNESS-ERROR property=%s replaying %s\n%s\n" % (mod.PROP, v["fp"], rr["harness_error"]))
                 return 2
@@ -385,7 +394,7 @@ def run_property(mod, tier, nproc=None):
                     # the case alone does not fail: the violation may depend on earlier cases of its job (state the
                     # library keeps between calls). Replay the whole job, twice; it is deterministic.
                     whole = True
-                    r1 = _run_one((mod.__name__, byname[v["origin"]]))
+                    r1 = _isolated((mod.__name__, byname[v["origin"]]))
                     if v["fp"] in [x["fp"] for x in r1["violations"]]:
                         continue
                 sys.stdout.write("HARNESS-NONDETERMINISM property=%s fp=%s did not reproduce on replay %d\n"
